@@ -5,7 +5,7 @@
 From Coq Require Import ZArith List Bool Ascii String Floats Uint63.
 From Hermes Require Import Num DateModel CropParamModel SoilModel C13Corr.
 Import ListNotations.
-Open Scope Z_scope.
+Local Open Scope Z_scope.
 
 Inductive sobs := SOk (f : list float) (z : list Z) (s : list string) | SErr | SCrash.
 
